@@ -81,11 +81,17 @@ def dy(rng, lo, hi, den=4):
 def names_for(n, style, nameseed):
     rng = random.Random(nameseed)
     if style == "str":
-        pool = ["x1", "B", "a", "Z", "m", "c2", "Y", "k", "d", "W"]
+        pool = ["x1", "B", "a", "Z", "m", "c2", "Y", "k", "d", "W", "q", "R"]
     elif style == "int":
         pool = list(range(0, 9))
+    elif style == "int9":           # small ints >= 8: a set of them does not iterate in increasing order
+        pool = list(range(0, 14))
+    elif style == "substr":         # one name a substring / prefix of another, digit strings, format-ish names
+        pool = ["x1", "x10", "x", "x11", "1", "10", "G", "G2", "x1_mu", "mean", "0", "{0}"]
+    elif style == "tuple":          # only where no pandas frame is involved
+        pool = [("v", 1), ("v", 10), "v", 1, ("w",), ("v", 1, 0), "w", 10, (1, "v"), 0]
     else:
-        pool = ["x", 0, "b", 7, "Zz", 3, "a", 11, "y", 5]
+        pool = ["x", 0, "b", 7, "Zz", 3, "a", 11, "y", 5, "", 8]
     rng.shuffle(pool)
     return pool[:n]
 
@@ -120,24 +126,63 @@ def tofl(M):
 
 
 # ------------------------------------------------------------------ case generation
-def gen_lgbn(rng, nmax=6, style=None):
+def gen_lgbn(rng, nmax=6, style=None, mag=False):
     n = rng.randint(1, nmax)
     nodes, edges = common.rand_dag(rng, n, p=rng.choice([0.3, 0.5, 0.7, 0.9]))
-    style = style or rng.choice(["str", "int", "mixed"])
+    style = style or rng.choice(["str", "int", "mixed", "substr"])
+    zero_ok = rng.random() < 0.35             # exact zero coefficients / intercepts ('x or default' shortcuts)
+    # magnitudes: intercepts up to 2^20, variances up to 2^30 (exact in floats; the model is exact anyway)
+    sa = Fraction(2) ** rng.choice([10, 20]) if mag else Fraction(1)
+    sb = Fraction(2) ** rng.choice([10, 20, 30]) if mag else Fraction(1)
     cpds = []
     for v in range(n):
         pa = [u for (u, w) in edges if w == v]
         rng.shuffle(pa)
-        mean = [dy(rng, -3, 3)] + [rng.choice([Fraction(k, 4) for k in range(-8, 9) if k != 0]) for _ in pa]
+        ks = [k for k in range(-8, 9) if k != 0] + ([0, 0, 0, 0] if zero_ok else [])
+        mean = [(Fraction(0) if zero_ok and rng.random() < 0.3 else dy(rng, -3, 3)) * sa] \
+            + [Fraction(rng.choice(ks), 4) for _ in pa]
         var = rng.choice([Fraction(1, 4), Fraction(1, 2), Fraction(3, 4), Fraction(1), Fraction(3, 2),
-                          Fraction(2), Fraction(4)])
+                          Fraction(2), Fraction(4)]) * sb
         cpds.append([v, [jf(x) for x in mean], jf(var), pa])
     add_order = list(range(n))
     rng.shuffle(add_order)
     dummy = rng.randrange(n) if rng.random() < 0.3 else None
-    return {"kind": "lgbn", "n": n, "nodes": nodes, "edges": [list(e) for e in edges], "style": style,
-            "nameseed": rng.randint(0, 10**9), "cpds": cpds, "add_order": add_order, "dummy": dummy,
-            "dseed": rng.randint(0, 10**9)}
+    c = {"kind": "lgbn", "n": n, "nodes": nodes, "edges": [list(e) for e in edges], "style": style,
+         "nameseed": rng.randint(0, 10**9), "cpds": cpds, "add_order": add_order, "dummy": dummy,
+         "dseed": rng.randint(0, 10**9)}
+    if mag:
+        c["mag"] = [int(sa), int(sb)]
+    return c
+
+
+def gen_big(rng):
+    """9..10 variables with small-int names >= 8, one long directed path (depth n-1) plus sparse extra edges;
+    a sample of missing subsets of sizes 1..6 instead of all of them"""
+    n = rng.randint(9, 10)
+    order = list(range(n))
+    rng.shuffle(order)
+    edges = [[order[i], order[i + 1]] for i in range(n - 1)]
+    for i in range(n):
+        for j in range(i + 2, n):
+            if rng.random() < 0.12:
+                edges.append([order[i], order[j]])
+    rng.shuffle(edges)
+    nodes = list(range(n))
+    rng.shuffle(nodes)
+    cpds = []
+    for v in range(n):
+        pa = [u for (u, w) in edges if w == v]
+        rng.shuffle(pa)
+        mean = [dy(rng, -2, 2)] + [rng.choice([Fraction(-1), Fraction(-1, 2), Fraction(1, 2), Fraction(1), Fraction(3, 4)])
+                                  for _ in pa]
+        cpds.append([v, [jf(x) for x in mean], jf(rng.choice([Fraction(1, 2), Fraction(1), Fraction(2)])), pa])
+    add_order = list(range(n))
+    rng.shuffle(add_order)
+    subsets = []
+    for _ in range(7):
+        subsets.append(sorted(rng.sample(range(n), rng.randint(1, 6))))
+    return {"kind": "lgbn", "n": n, "nodes": nodes, "edges": edges, "style": "int9", "nameseed": rng.randint(0, 10**9),
+            "cpds": cpds, "add_order": add_order, "dummy": None, "dseed": rng.randint(0, 10**9), "subsets": subsets}
 
 
 def gen_fit(rng):
@@ -183,6 +228,8 @@ def make_index(kind, N, iseed):
     rng = random.Random("%s/%d" % (kind, iseed))
     if kind == "range":
         return None
+    if N < 2 and kind in ("permuted", "reversed"):
+        kind = "shifted"
     if kind == "shifted":
         return list(range(400, 400 + N))
     if kind == "permuted":
@@ -475,15 +522,22 @@ def run_lgbn(case, drv):
     subsets = []
     for r in range(1, min(3, n) + 1):
         subsets += list(itertools.combinations(range(n), r))
+    if n >= 5 and "subsets" not in case:            # "one or several": also larger missing sets
+        for _ in range(3):
+            subsets.append(tuple(sorted(rng.sample(range(n), rng.randint(4, n)))))
+    if "subsets" in case:
+        subsets = [tuple(x) for x in case["subsets"]]
     if "only" in case:
         subsets = [tuple(case["only"])]
-    for S in subsets:
+    cpd_snap = [(c, np.array(c.mean, copy=True), list(c.evidence), c.variance) for c in m.cpds]
+    for si, S in enumerate(subsets):
         obs = [v for v in range(n) if v not in S]
         rng.shuffle(obs)
-        nrows = rng.randint(1, 3)
+        nrows = 0 if rng.random() < 0.06 else rng.randint(1, 3)
         extra = rng.random() < 0.4
+        intdata = rng.random() < 0.25             # integer-valued observations in an int64 frame
         colnames = [names[v] for v in obs]
-        rows = [[dy(rng, -4, 4) for _ in obs] for _ in range(nrows)]
+        rows = [[dy(rng, -4, 4, 1 if intdata else 4) for _ in obs] for _ in range(nrows)]
         frame_cols = list(colnames)
         frame_rows = [[float(x) for x in r] for r in rows]
         model_cols = list(obs)
@@ -495,8 +549,24 @@ def run_lgbn(case, drv):
             for fr_, mr_ in zip(frame_rows, model_rows):
                 fr_.insert(k, 42.0)
                 mr_.insert(k, Fraction(42))
-        df = pd.DataFrame(frame_rows, columns=pd.Index(frame_cols, dtype=object))
-        res = m.predict(df)
+        ikind = INDEX_KINDS[(si + case["dseed"]) % len(INDEX_KINDS)]
+        labels = make_index(ikind, nrows, case["dseed"] + si)
+        df = pd.DataFrame(np.array(frame_rows, dtype=float).reshape(nrows, len(frame_cols)),
+                          columns=pd.Index(frame_cols, dtype=object),
+                          index=None if labels is None else pd.Index(labels))
+        if intdata:
+            df = df.astype("int64")
+        df_snap = df.copy(deep=True)
+        res = m.predict(df, distribution="joint") if si % 2 else m.predict(df)
+        if not df.equals(df_snap) or list(df.columns) != list(df_snap.columns) or list(df.index) != list(df_snap.index) \
+                or list(df.dtypes) != list(df_snap.dtypes):
+            return bad("impl!=spec:predict-mutates-data", {"missing": list(S)})
+        if si == 0:
+            tags.append("predict-index=" + ikind)
+        if nrows == 0:
+            tags.append("predict-zero-rows")
+        if intdata:
+            tags.append("predict-int64-frame")
         if not (isinstance(res, tuple) and len(res) == 3):
             return bad("impl!=spec:predict-return", {"missing": list(S)})
         pv, pmu, pcov = res
@@ -550,8 +620,34 @@ def run_lgbn(case, drv):
         tags.append("missing=%d" % a)
         if a >= 2 and pvi != sorted(pvi, key=lambda v: pos[v]):
             tags.append("missing-order!=topological")
+    # ---- purity / result independence: the CPD objects are untouched; scribbling over every returned array does not
+    #      change what the next call returns (no memoised array handed out twice)
+    for c, cm_, ce_, cv_ in cpd_snap:
+        if not np.array_equal(np.asarray(c.mean), cm_) or list(c.evidence) != ce_ or c.variance != cv_:
+            return bad("impl!=spec:cpd-mutated", {"variable": idx[repr(c.variable)]})
+    mu_keep, cov_keep = mu.copy(), cov.copy()
+    mu[...] = 77.0
+    cov[...] = 77.0
+    if subsets:
+        pmu[...] = 55.0
+        pcov[...] = 55.0
+    mu3, cov3 = m.to_joint_gaussian()
+    if mu3 is mu or cov3 is cov or not np.array_equal(mu3, mu_keep) or not np.array_equal(cov3, cov_keep):
+        return bad("impl!=spec:to_joint_gaussian-result-not-independent", {"order": order})
+    # ---- simulate: the documented draw from the reported joint, columns = variables of the joint
+    if n <= 6:
+        sd, ns = case["dseed"] % 1000, 4
+        sim = m.simulate(n=ns, seed=sd)
+        ref = np.random.default_rng(seed=sd).multivariate_normal(mean=mu_keep, cov=cov_keep, size=ns)
+        if [idx[repr(x)] for x in sim.columns] != order or sim.shape != (ns, n) \
+                or not np.allclose(sim.values, ref, rtol=1e-9, atol=1e-9):
+            return bad("impl!=spec:simulate", {"order": order, "columns": [repr(x) for x in sim.columns],
+                                                 "impl": sim.values.tolist(), "spec": ref.tolist()})
+        tags.append("simulate")
+    if "mag" in case:
+        tags.append("magnitude intercept*%d variance*%d" % tuple(case["mag"]))
     key = common.canon_key(["lgbn", n, case["nodes"], sorted(map(tuple, case["edges"])), case["cpds"], case["style"],
-                            case["nameseed"], case["dseed"]])
+                            case["nameseed"], case["dseed"], case.get("subsets")])
     return ok(nontrivial=(n >= 2 and len(case["edges"]) >= 1), key=key, tags=tags)
 
 
